@@ -712,6 +712,193 @@ def check_certificates(ctx, pool, tmp):
                               _rp('keygen_write_certificate', alg, {}, format='openssh', data=data.hex()))
 
 
+def _reference_reads(data, pwb, ref_priv, ref_pub, tmp):
+    """Does an independent implementation read this DER private key file as the expected key?
+    -> 'pyca' / 'openssl' / None"""
+    from cryptography.hazmat.primitives import serialization as ser
+    try:
+        with warnings.catch_warnings():
+            warnings.simplefilter('ignore')
+            if _pyca_canon_private(ser.load_der_private_key(data, pwb)) == ref_priv:
+                return 'pyca'
+    except Exception:                          # noqa
+        pass
+    exe = shutil.which('openssl')
+    if exe:
+        path = os.path.join(tmp, 'optfield.der')
+        _write(path, data)
+        try:
+            p = subprocess.run([exe, 'pkey', '-inform', 'DER', '-in', path, '-passin', 'pass:' + (pwb or b'').decode(), '-pubout', '-outform', 'DER'],
+                               stdout=subprocess.PIPE, stderr=subprocess.PIPE, timeout=60)
+            if p.returncode == 0 and p.stdout == ref_pub:
+                return 'openssl'
+        except Exception:                      # noqa
+            pass
+    return None
+
+
+def check_optional_fields(ctx, pool, tmp):
+    """Key files written by the harness's own DER writer with every OPTIONAL field of the parsed structures present and
+    absent (PBKDF2 keyLength / prf, PrivateKeyInfo attributes and publicKey, ECPrivateKey parameters and publicKey).
+    Whatever cryptography or openssl reads as the expected key, asyncssh must import as the same key."""
+    import asyncssh
+    from . import c15_gen as G
+    rng = ctx.rng
+    thorough = ctx.tier == 'thorough'
+    seen_alg = set()
+    first = True
+    for alg, kw, key in pool:
+        if alg in seen_alg:
+            continue
+        seen_alg.add(alg)
+        ref_priv = _pyca_canon_private(key.pyca_key)
+        ref_pub = _pyca_canon_public(key.pyca_key.public_key())
+        cases = [(name, data, None) for name, data in G.optional_field_variants(alg, key.pyca_key)]
+        grid = [(c, prf, pp, kl) for c in G.PBES2_CIPHERS for prf, pp in (('sha1', False), ('sha1', True), ('sha256', True), ('sha512', True))
+                for kl in (False, True)]
+        if not (first or thorough):
+            grid = [g for g in grid if g[3]][:0] + rng.sample(grid, 3) + [rng.choice([g for g in grid if g[3]])]
+        first = False
+        for c, prf, pp, kl in grid:
+            name = f'pbes2 {c} prf={prf if pp else "absent(default sha1)"} keyLength={"present" if kl else "absent"}'
+            cases.append((name, G.pbes2_encrypt(ref_priv, b'pw', c, prf, kl, pp, rng), b'pw'))
+        for name, data, pwb in cases:
+            ctx.note_case(('optional-fields', alg, name), nontrivial=True)
+            ref = _reference_reads(data, pwb, ref_priv, ref_pub, tmp)
+            if ref is None:
+                ctx.count('sweep.optional_fields.no_reference_reader')
+                continue
+            rp = _rp('optional_fields', alg, kw, variant=name, format='der', passphrase=_b(pwb), passphrase_is_bytes=True,
+                     reference=ref, data=data.hex(), ref_pub=ref_pub.hex())
+            try:
+                k2 = asyncssh.import_private_key(data, pwb)
+                want_pub = asyncssh.import_public_key(ref_pub).public_data
+                ok = k2 == key and k2.public_data == want_pub and k2.private_data == key.private_data
+                err = 'a different key' if k2 != key else f'public_data {k2.public_data.hex()[-24:]} instead of {want_pub.hex()[-24:]}'
+            except Exception as e:             # noqa
+                ok = False
+                err = f'{type(e).__name__}: {e}'
+            ctx.count('sweep.optional_fields.' + ('ok' if ok else 'fail'))
+            if not ok:
+                ctx.failing_input(f'{alg} key file [{name}] is read by {ref} as the expected key but asyncssh gives {err}', rp)
+
+
+def check_file_entry_points(ctx, pool, tmp):
+    """write_* / read_* with and without comments: comment presence and bytes are compared exactly, and the name of the
+    file a key was read from must never show up in anything exported afterwards."""
+    import asyncssh
+    import binascii
+    n = 0
+    for alg, kw, key in pool:
+        for cm in (None, b'file comment'):
+            for fmt in ('openssh', 'pkcs8-pem', 'pkcs1-pem', 'pkcs8-der'):
+                key.set_comment(cm)
+                path = os.path.join(tmp, 'entry-%d-key' % n)
+                n += 1
+                try:
+                    key.write_private_key(path, fmt)
+                except asyncssh.KeyExportError:
+                    continue
+                finally:
+                    key.set_comment(None)
+                ctx.note_case(('file-private', alg, repr(kw), fmt, cm), nontrivial=True)
+                expected = cm if fmt in CARRIES_COMMENT else None
+                rp = _rp('file_entry_point', alg, kw, format=fmt, comment=_b(cm), api='read_private_key')
+                try:
+                    k2 = asyncssh.read_private_key(path)
+                    problems = []
+                    if not _same_private(k2, key):
+                        problems.append('different key')
+                    if k2.has_comment() != (expected is not None) or (expected is not None and k2.get_comment_bytes() != expected):
+                        problems.append(f'comment {k2.get_comment_bytes() if k2.has_comment() else None!r} instead of {expected!r}')
+                    out = k2.export_private_key('openssh')
+                    raw = binascii.a2b_base64(b''.join(out.strip().split(b'\n')[1:-1]))
+                    if os.fsencode(path) in raw or os.path.basename(path).encode() in raw:
+                        problems.append('the re-exported OpenSSH private key contains the name of the file it was read from')
+                    k3 = asyncssh.import_private_key(out)
+                    if k3.has_comment() != (expected is not None) or (expected is not None and k3.get_comment_bytes() != expected):
+                        problems.append(f're-export as openssh then import gives comment '
+                                        f'{k3.get_comment_bytes() if k3.has_comment() else None!r} instead of {expected!r}')
+                    publine = k2.export_public_key('openssh')
+                    if len(publine.split()) != (2 if expected is None else 2 + len(expected.split())):
+                        problems.append(f'public line after reading the file: {publine[:120]!r}')
+                    if SSH_KEYGEN and alg in KEYGEN_TYPES and expected is None:
+                        p2 = path + '-re'
+                        _write(p2, out)
+                        rc, o, e = _run(['-y', '-f', p2])
+                        if rc == 0 and len(o.split()) != 2:
+                            problems.append(f'ssh-keygen -y shows a comment for the re-exported key: {o[-80:]!r}')
+                except Exception as e:         # noqa
+                    problems = [f'{type(e).__name__}: {e}']
+                ctx.count('sweep.file_entry.private.' + ('ok' if not problems else 'fail'))
+                if problems:
+                    ctx.failing_input(f'{alg} key (comment {cm!r}) written with write_private_key({fmt}) and read with read_private_key: '
+                                      + '; '.join(problems), dict(rp, problems=problems))
+        for cm in (None, b'pub file comment'):
+            for fmt in ('openssh', 'rfc4716', 'pkcs8-pem'):
+                key.set_comment(cm)
+                path = os.path.join(tmp, 'entry-%d.pub' % n)
+                n += 1
+                try:
+                    key.write_public_key(path, fmt)
+                except asyncssh.KeyExportError:
+                    continue
+                finally:
+                    key.set_comment(None)
+                ctx.note_case(('file-public', alg, repr(kw), fmt, cm), nontrivial=True)
+                expected = cm if fmt in PUB_CARRIES_COMMENT else None
+                try:
+                    kp = asyncssh.read_public_key(path)
+                    problems = []
+                    if kp.public_data != key.public_data:
+                        problems.append('different key')
+                    if kp.has_comment() != (expected is not None) or (expected is not None and kp.get_comment_bytes() != expected):
+                        problems.append(f'comment {kp.get_comment_bytes() if kp.has_comment() else None!r} instead of {expected!r}')
+                    for f2 in ('openssh', 'rfc4716'):
+                        o = kp.export_public_key(f2)
+                        if os.path.basename(path).encode() in o:
+                            problems.append(f'the {f2} re-export contains the name of the file the key was read from')
+                        kq = asyncssh.import_public_key(o)
+                        if kq.has_comment() != (expected is not None) or (expected is not None and kq.get_comment_bytes() != expected):
+                            problems.append(f're-export as {f2} gives comment {kq.get_comment_bytes() if kq.has_comment() else None!r}')
+                except Exception as e:         # noqa
+                    problems = [f'{type(e).__name__}: {e}']
+                ctx.count('sweep.file_entry.public.' + ('ok' if not problems else 'fail'))
+                if problems:
+                    ctx.failing_input(f'{alg} public key (comment {cm!r}) written with write_public_key({fmt}) and read with read_public_key: '
+                                      + '; '.join(problems),
+                                      dict(_rp('file_entry_point', alg, kw, format=fmt, comment=_b(cm), api='read_public_key'), problems=problems))
+    # certificates
+    ca = pool[0][2]
+    for alg, kw, key in pool[:4]:
+        try:
+            cert = ca.generate_user_certificate(key, 'id', principals=['u'])
+        except Exception:                      # noqa
+            continue
+        for cm in (None, b'cert file comment'):
+            for fmt in ('openssh', 'rfc4716'):
+                cert.set_comment(cm)
+                path = os.path.join(tmp, 'entry-%d-cert.pub' % n)
+                n += 1
+                cert.write_certificate(path, fmt)
+                ctx.note_case(('file-cert', alg, fmt, cm), nontrivial=True)
+                try:
+                    c2 = asyncssh.read_certificate(path)
+                    problems = []
+                    if c2.public_data != cert.public_data:
+                        problems.append('different certificate')
+                    if c2.has_comment() != (cm is not None) or (cm is not None and c2.get_comment_bytes() != cm):
+                        problems.append(f'comment {c2.get_comment_bytes()!r} instead of {cm!r}')
+                    if os.path.basename(path).encode() in c2.export_certificate('openssh'):
+                        problems.append('the re-export contains the file name')
+                except Exception as e:         # noqa
+                    problems = [f'{type(e).__name__}: {e}']
+                ctx.count('sweep.file_entry.cert.' + ('ok' if not problems else 'fail'))
+                if problems:
+                    ctx.failing_input(f'{alg} certificate (comment {cm!r}) written with write_certificate({fmt}) and read back: ' + '; '.join(problems),
+                                      dict(_rp('file_entry_point', alg, kw, format=fmt, comment=_b(cm), api='read_certificate'), problems=problems))
+
+
 # ---------------------------------------------------------------------------------------------
 
 def run_sweep(ctx, pool):
@@ -763,7 +950,8 @@ def run_sweep(ctx, pool):
                 ctx.failing_input(f'check_pyca {alg}: {type(e).__name__}: {e}', {'kind': 'sweep_exception', 'alg': alg, 'keygen': kw,
                                                                                  'format': 'pyca', 'exception': type(e).__name__})
         for fn, args in ((check_key_lists, (ctx, pool, tmp, rng)), (check_ssh_keygen, (ctx, pool, tmp, rng, thorough)),
-                         (check_openssl_cli, (ctx, pool, tmp)), (check_certificates, (ctx, pool, tmp))):
+                         (check_openssl_cli, (ctx, pool, tmp)), (check_certificates, (ctx, pool, tmp)),
+                         (check_file_entry_points, (ctx, pool, tmp)), (check_optional_fields, (ctx, pool, tmp))):
             try:
                 fn(*args)
             except Exception as e:             # noqa  an import/export raised where the oracle expected a result
@@ -777,7 +965,8 @@ def run_sweep(ctx, pool):
             ctx.broke('vacuity:sweep', f'only {n_ok} private export/import cases succeeded')
         d = ctx.cov['distribution']
         for need in ('sweep.wrong_passphrase.rejected', 'sweep.cross_type_passphrase.ok', 'sweep.pyca.write_private.ok',
-                     'sweep.pyca.read_private.ok.pkcs8-der', 'sweep.lists.private.openssh', 'sweep.cert.roundtrip.ok'):
+                     'sweep.pyca.read_private.ok.pkcs8-der', 'sweep.lists.private.openssh', 'sweep.cert.roundtrip.ok',
+                     'sweep.file_entry.private.ok', 'sweep.file_entry.public.ok', 'sweep.optional_fields.ok'):
             if not d.get(need):
                 ctx.broke('vacuity:' + need, 'the sweep never reached this class')
         if not (d.get('sweep.public.export_refused.newline_comment') or ctx.cov['oracle'].get('failing_groups')):
